@@ -104,6 +104,12 @@ pub fn panic_class(m: &str) -> u32 {
         1
     } else if m.contains("path segments may not be empty") {
         2
+    } else if m.contains("path segments may not be \".\"") {
+        18
+    } else if m.contains("path that ends before it") {
+        19
+    } else if m.contains("attempted to register route when a route already exists for the remainder") {
+        20
     } else if m.contains("missing leading") {
         3
     } else if m.contains("missing trailing") {
